@@ -43,8 +43,13 @@ def _search(args):
     from harness.fan import tree_ir
     from harness.search_driver import record_run
     spec, seed, extra, settings = args
+    from harness.parsepipe import with_timeout, Timeout
     try:
-        f, events, sols, exc = record_run(spec, seed, extra=extra, **settings)
+        f, events, sols, exc = with_timeout(lambda: record_run(spec, seed, extra=extra, **settings), 40.0)
+    except Timeout:
+        # a search that does not finish within the budget (typically an unsatisfiable generated constraint, on which
+        # the individuals keep growing) emits nothing that could be judged
+        return {"reject": "timeout", "sols": []}
     except Exception as e:  # noqa
         return {"reject": "%s: %s" % (type(e).__name__, str(e)[:100]), "sols": []}
     return {"reject": None, "sols": [tree_ir(t) for t in sols], "exc": exc}
